@@ -31,6 +31,9 @@ def gen_long_streams(r, n):
     out = []
     for i in range(n):
         vals = [r.choice(pool) if r.random() < 0.85 else G.rand_value(r, 2) for _ in range(r.choice([150, 300, 600]))]
+        if i % 3 == 0:
+            # one kind of small value over and over (what is kept per value of that kind adds up), then the mixture
+            vals = [pool[(i // 3) % len(pool)]] * r.choice([300, 700, 1100]) + vals[:100]
         if r.random() < 0.5:
             vals.append(G.nested(r, 60, ("num", "7")))
         data, _ = G.spell_stream(r, vals)
